@@ -76,12 +76,20 @@ static int known_index(const std::string& sig) {
 #include <csetjmp>
 #include <ucontext.h>
 #include <unistd.h>
+#include <sys/time.h>
 static bool g_ub_is_violation = false;
 static std::map<std::string, uint64_t> g_ub_reports;
 static std::string g_out_path;
 static VpCase g_current; static volatile sig_atomic_t g_in_run = 0;
 static sigjmp_buf g_jmp; static volatile int g_sig; static volatile uintptr_t g_sig_pc, g_sig_addr;
 static std::string case_text(const VpCase& c);
+// watchdog on process CPU time (ITIMER_VIRTUAL, so machine load cannot trigger it): a Case that is still the current one after
+// two consecutive ticks (10-20 s of CPU for an operation that takes microseconds) has not returned
+static volatile uint64_t g_case_serial = 0, g_tick_serial = ~0ull;
+static void on_tick(int) {
+    if (g_in_run && g_case_serial == g_tick_serial) { g_sig = SIGVTALRM; g_sig_pc = 0; g_sig_addr = 0; siglongjmp(g_jmp, 1); }
+    g_tick_serial = g_case_serial;
+}
 static void on_signal(int sig, siginfo_t* si, void* uc) {
     if (!g_in_run) { signal(sig, SIG_DFL); raise(sig); return; }
     g_sig = sig;
@@ -104,6 +112,8 @@ static void san_init() {
     static char altstack[1 << 16];
     stack_t ss; ss.ss_sp = altstack; ss.ss_size = sizeof altstack; ss.ss_flags = 0; sigaltstack(&ss, nullptr);
     for (int sg : {SIGSEGV, SIGBUS, SIGFPE, SIGILL, SIGTRAP}) sigaction(sg, &sa, nullptr);
+    struct sigaction st; std::memset(&st, 0, sizeof st); st.sa_handler = on_tick; st.sa_flags = SA_NODEFER | SA_ONSTACK; sigaction(SIGVTALRM, &st, nullptr);
+    struct itimerval iv; iv.it_interval.tv_sec = 10; iv.it_interval.tv_usec = 0; iv.it_value = iv.it_interval; setitimer(ITIMER_VIRTUAL, &iv, nullptr);
 #ifdef VP_SAN
     __sanitizer_set_death_callback(on_death);
 #endif
@@ -114,7 +124,7 @@ static void run_raw(const VpCase& c, VpOutcome& o) {
     std::memset(&o, 0, sizeof o);
     o.bad_lane = -1;
     if (c.target >= g_ntargets || c.op >= g_nops || !g_targets[c.target].present) { o.status = 2; return; }
-    g_current = c;
+    g_current = c; ++g_case_serial;
     // every Case starts from the default floating-point environment (a Case that leaves it changed is C11's business
     // and is detected inside the check; it must not leak into the next Case)
     _mm_setcsr(0x1F80);
@@ -126,6 +136,11 @@ static void run_raw(const VpCase& c, VpOutcome& o) {
         g_in_run = 0;
         // the check may have declared, before calling AVEL, that a trap at this point is allowed
         // (o.tag starts with "trap-ok")
+        if (g_sig == SIGVTALRM) {
+            o.status = 1; o.bad_lane = -1; std::snprintf(o.tag, sizeof o.tag, "no_return:cpu_time_watchdog");
+            std::snprintf(o.msg, sizeof o.msg, "the operation had not returned after 10-20 s of CPU time");
+            return;
+        }
         bool ub = (g_sig == SIGILL || g_sig == SIGTRAP);
         char where[96]; std::snprintf(where, sizeof where, "pc=0x%lx addr=0x%lx", (unsigned long)g_sig_pc, (unsigned long)g_sig_addr);
         if (std::strncmp(o.tag, "trap-ok", 7) == 0) { o.status = 0; o.tag[0] = 0; return; }
@@ -230,6 +245,7 @@ static void add_sample(const VpCase& c, const VpOutcome& o) {
     g_samples.push_back(std::make_pair(c, g_phase));
 }
 
+static void finish_now();
 // returns true if the case is acceptable (pass, n/a or known finding)
 static bool account(const VpCase& c, bool allow_minimise = true) {
     VpOutcome o;
@@ -270,14 +286,20 @@ static bool account(const VpCase& c, bool allow_minimise = true) {
         if (g_failures[i].sig == sig) return false;
     if (g_failures.size() >= g_max_failures) return false;
     Failure f; f.c = c; f.o = o; f.sig = sig; f.phase = g_phase;
-    if (allow_minimise) minimise(f.c, f.o, sig);
+    const bool hang = std::strncmp(o.tag, "no_return", 9) == 0;     // every re-execution of a hanging Case costs 10-20 s of CPU: no minimisation, one confirmation
+    if (allow_minimise && !hang) minimise(f.c, f.o, sig);
     f.confirmed = 0;
-    for (int r = 0; r < 3; ++r) { VpOutcome t; run_raw(f.c, t); if (t.status == 1) ++f.confirmed; }
+    if (hang) { VpOutcome t; run_raw(f.c, t); f.confirmed = (t.status == 1) ? 3 : 0; }
+    else for (int r = 0; r < 3; ++r) { VpOutcome t; run_raw(f.c, t); if (t.status == 1) ++f.confirmed; }
     g_failures.push_back(f);
+    if (hang) finish_now();     // every further hanging Case would cost another 10-20 s: report what was found and stop this process
     return false;
 }
 
 static void emit_cb(const VpCase* c, void*) { account(*c); }
+static std::string g_mode_name; static uint64_t g_seed_value;
+static void write_json(const std::string& path, const std::string& mode, uint64_t seed, double wall);
+static void finish_now() { write_json(g_out_path, g_mode_name, g_seed_value, 0.0); fflush(nullptr); _exit(1); }
 
 // ------------------------------------------------------------------------------------------------
 // value lattices
@@ -666,7 +688,7 @@ int main(int argc, char** argv) {
     g_classes = vp_class_names(&g_nclasses);
     g_class_counts.assign(g_nclasses, 0);
     auto t0 = std::chrono::steady_clock::now();
-    g_out_path = out;
+    g_out_path = out; g_mode_name = mode; g_seed_value = seed;
     if (mode != "list") san_init();
     if (mode == "list") {
         for (uint32_t i = 0; i < g_ntargets; ++i) printf("target %u %s present=%u\n", i, g_targets[i].name, g_targets[i].present);
